@@ -46,7 +46,7 @@ func (filters) Name() string    { return "filters" }
 func (filters) Props() []string { return []string{"C19"} }
 func (filters) Runs(tier string) int64 {
 	if tier == "thorough" {
-		return 300000
+		return 2000000
 	}
 	return 6000
 }
@@ -377,7 +377,8 @@ func (filters) Execute(scAny any, keepLog bool) *core.Outcome {
 			for _, g := range groups {
 				gotGroups[g.pid] = append(gotGroups[g.pid], g.packets)
 			}
-			for pid, wl := range wantGroups {
+			for _, pid := range pidKeys(wantGroups) {
+				wl := wantGroups[pid]
 				gl := gotGroups[pid]
 				if len(gl) != len(wl) {
 					out.Violate("C19", "group-units", kindOf(sc.Model, pid), "PID %#x: parser saw %d groups, the stream carries %d units", pid, len(gl), len(wl))
